@@ -21,7 +21,7 @@ from . import csrtarget
 
 PROP = "C16"
 LEVEL = "other"
-GLUE = ["mode_table", "input_delay", "input_pack", "setclr_code", "mode_write", "reset_state"]
+GLUE = ["geometry_as_configured", "mode_table", "input_delay", "input_pack", "setclr_code", "mode_write", "reset_state"]
 
 
 def configs(tier, seed):
@@ -65,6 +65,15 @@ def check_config(ctx, cfg):
         probes += [S(mode_r.f.pin[k].data), S(out_r.f.pin[k].data), S(in_r.f.pin[k].port.r_data)]
     nl = ctx.netlist(p, probes=probes)
     ctx.nontrivial = n >= 2
+    # the peripheral is the one that was CONFIGURED: bus geometry, pin count, the four registers with widths 2n / n / n / 2n in the order
+    # Mode, Input, Output, SetClr (the clauses below take widths and addresses from the component and its memory map)
+    from amaranth_soc import csr as _csr
+    order = [R["name"] for R in sorted(regs, key=lambda R: R["start"])]
+    widths = {R["name"]: R["width"] for R in regs}
+    geometry_ok = (p.bus.signature == _csr.Signature(addr_width=cfg["aw"], data_width=cfg["dw"]) and len(p.pins) == n and len(p.alt_mode) == n
+                   and order == ["Mode", "Input", "Output", "SetClr"] and widths == {"Mode": 2 * n, "Input": n, "Output": n, "SetClr": 2 * n}
+                   and p.pin_count == n and p.input_stages == cfg["stages"] and p.bus.memory_map.addr_width == cfg["aw"] and p.bus.memory_map.data_width == cfg["dw"])
+    ctx.prove("geometry_as_configured", z3.BoolVal(bool(geometry_ok)))
     csrtarget.read_clauses(ctx, nl, p.bus, regs)
     csrtarget.write_clauses(ctx, nl, p.bus, regs)
     one, zero = z3.BitVecVal(1, 1), z3.BitVecVal(0, 1)
